@@ -16,7 +16,7 @@
    expression: C12/C15's subject). *)
 From Coq Require Import List Ascii String ZArith NArith Bool.
 From YP Require Import Outcome PyStr PyVal Doc Generated PathParser PathPrinter Searches PathsSearch
-     SpecC07 PathsEnum PathsSpec PathsLeaves PathsMain PathsResolve.
+     SpecC07 PathsEnum PathsSpec PathsLeaves PathsMain PathsResolve PathsAlias PathsAliasMain PathsPrint PathsPrintProofs.
 Import ListNotations.
 Open Scope string_scope.
 
@@ -52,9 +52,9 @@ Proof.
   split; [reflexivity|]. split; [reflexivity|]. split; [right; split; reflexivity|].
   split; [simpl; repeat constructor; simpl; tauto|].
   split; [vm_compute; reflexivity|]. split.
-  - left. split; [reflexivity|]. exists (PStr "a"). split; [|vm_compute; reflexivity].
-    exists [RKey (PStr "a")], (NMap C07_i0 [(C07_leaf "b", C07_leaf "a")]), (RKey (PStr "b")), C07_i0.
-    split; [reflexivity|]. split.
+  - left. split; [reflexivity|]. exists (C07_leaf "a"). split; [|vm_compute; reflexivity].
+    exists [RKey (PStr "a")], (NMap C07_i0 [(C07_leaf "b", C07_leaf "a")]), (RKey (PStr "b")).
+    split; [reflexivity|]. split; [|split; [|reflexivity]].
     + apply (reach_step C07_wdoc (key_ref (C07_leaf "a")) (NMap C07_i0 [(C07_leaf "b", C07_leaf "a")])).
       * constructor. left; reflexivity.
       * constructor.
@@ -178,9 +178,9 @@ Proof.
   exists C07_lit0, C07_re0, [], (mkterms false MEquals "*" "b"), Dot, (mkopts true false false false false false),
          C07_doc_reuse, [RIdx 1].
   split; [reflexivity|]. split; [reflexivity|]. split; [reflexivity|]. split; [vm_compute; reflexivity|].
-  left. split; [reflexivity|]. exists (PStr "b"). split; [|vm_compute; reflexivity].
-  exists [], C07_doc_reuse, (RIdx 1), (mkinfo 2 (Some "x") true None). split; [reflexivity|].
-  split; [constructor|]. apply child_seq. reflexivity.
+  left. split; [reflexivity|]. exists (NLeaf (mkinfo 2 (Some "x") true None) (PStr "b")). split; [|vm_compute; reflexivity].
+  exists [], C07_doc_reuse, (RIdx 1). split; [reflexivity|].
+  split; [constructor|]. split; [|reflexivity]. apply child_seq. reflexivity.
 Qed.
 
 (* ---- non-vacuity ---- *)
@@ -234,6 +234,141 @@ Example C07_alias_none_example :
   search_doc C07_lit0 C07_re0 C07_mt3 C07_tm_a Dot C07_o_none C07_doc3 =
   Ok [mkhit "a.k" [RKey (PStr "a"); RKey (PStr "k")] HValue].
 Proof. vm_compute. reflexivity. Qed.
+
+(* ---- alias-exclusion modes on documents WITH anchors, all four combinations
+        of the two alias options.  An aliased repeat is an occurrence of an
+        anchored node that is the same object (oid) as an earlier occurrence in
+        document order; `vreach` / `vplace_*` (SpecC07) walk to a place without
+        passing a merged-in entry or an aliased repeat that the options exclude;
+        `vwanted` / `vjustified` are `wanted` / `justified` restricted to such
+        visible places.
+
+        (a) every visible satisfying place is still reported (or lies beneath a
+            reported matching key: finding key_match_prunes_subtree).  Guard:
+            anchor names and objects go together (fails when a document
+            redefines an anchor name: finding reused_anchor_name). ---- *)
+Theorem C07_alias_complete_partial :
+  forall lit re_search (mt : mtable) (tm : terms) (sp : sep) (o : opts) (d : node) (res : list hit),
+    o_anchors o = false -> o_expand o = false -> names_consistent (anc_occs d) = true ->
+    search_doc lit re_search mt tm sp o d = Ok res ->
+    forall l, vwanted lit re_search tm mt o d l ->
+    exists h, In h res /\ prefix (h_loc h) l /\ (h_loc h = l \/ (h_kind h = HKey /\ o_keys o = true)).
+Proof. exact alias_complete. Qed.
+Print Assumptions C07_alias_complete_partial.
+
+(* without the guard: [&x a, &x b] searched for =b under --anchorsonly; [1] is
+   a visible wanted place (a different object, not a repeat), nothing is reported *)
+Theorem C07_alias_complete_refuted :
+  exists lit re_search mt tm sp o d l,
+    o_anchors o = false /\ o_expand o = false /\ o_keys o = false /\
+    search_doc lit re_search mt tm sp o d = Ok [] /\ vwanted lit re_search tm mt o d l.
+Proof.
+  exists C07_lit0, C07_re0, [], (mkterms false MEquals "*" "b"), Dot, (mkopts true false false false false false),
+         C07_doc_reuse, [RIdx 1].
+  split; [reflexivity|]. split; [reflexivity|]. split; [reflexivity|]. split; [vm_compute; reflexivity|].
+  left. split; [reflexivity|]. exists (NLeaf (mkinfo 2 (Some "x") true None) (PStr "b")).
+  split; [|split; [reflexivity|vm_compute; reflexivity]].
+  exists [], (RIdx 1), [], C07_doc_reuse. split; [reflexivity|]. split; [constructor|].
+  left. exists C07_i0, [NLeaf (mkinfo 1 (Some "x") true None) (PStr "a"); NLeaf (mkinfo 2 (Some "x") true None) (PStr "b")], 1.
+  split; [reflexivity|]. split; [reflexivity|]. split; [reflexivity|]. intros _. vm_compute. reflexivity.
+Qed.
+
+(* (b) no aliased repeat is reported unless the alias options ask for it: every
+       report is a visible satisfying place of its kind.  Guards: names and
+       objects go together, and no anchored node is met for the first time
+       inside a part the search does not enter (`exposed`). ---- *)
+Theorem C07_alias_excluded_partial :
+  forall lit re_search (mt : mtable) (tm : terms) (sp : sep) (o : opts) (d : node) (res : list hit),
+    o_anchors o = false -> o_expand o = false -> names_consistent (anc_occs d) = true ->
+    exposed lit re_search tm mt o d [] = true ->
+    search_doc lit re_search mt tm sp o d = Ok res ->
+    forall h, In h res -> vjustified lit re_search tm mt o d h.
+Proof. exact alias_excluded. Qed.
+Print Assumptions C07_alias_excluded_partial.
+
+(* a visible justified report is a justified report (soundness in the exclusion modes) *)
+Theorem C07_alias_visible_sound :
+  forall lit re_search (mt : mtable) (tm : terms) (o : opts) (d : node) (h : hit),
+    vjustified lit re_search tm mt o d h -> justified lit re_search tm o d h.
+Proof. exact vjustified_justified. Qed.
+Print Assumptions C07_alias_visible_sound.
+
+(* without `exposed`: {a: {k: &w b}, z: *w} searched for <c with --keynames under
+   --anchorsonly.  Key a matches, so nothing beneath it is visited and &w is not
+   recorded; the alias z: *w then passes for the original and is reported
+   (second clause of finding key_match_prunes_subtree). *)
+Definition C07_w : node := NLeaf (mkinfo 5 (Some "w") true None) (PStr "b").
+Definition C07_doc_prune : node :=
+  NMap C07_i0 [(C07_leaf "a", NMap C07_i0 [(C07_leaf "k", C07_w)]); (C07_leaf "z", C07_w)].
+Definition C07_tm_ltc : terms := mkterms false MLt "*" "c".
+Definition C07_o_kv_none : opts := mkopts true true false false false false.
+
+Theorem C07_alias_excluded_refuted :
+  exists lit re_search mt tm sp o d res h,
+    o_anchors o = false /\ o_expand o = false /\ names_consistent (anc_occs d) = true /\
+    search_doc lit re_search mt tm sp o d = Ok res /\ In h res /\
+    ~ vjustified lit re_search tm mt o d h.
+Proof.
+  exists C07_lit0, C07_re0, [], C07_tm_ltc, Dot, C07_o_kv_none, C07_doc_prune,
+         [mkhit "a" [RKey (PStr "a")] HKey; mkhit "z" [RKey (PStr "z")] HValue], (mkhit "z" [RKey (PStr "z")] HValue).
+  split; [reflexivity|]. split; [reflexivity|]. split; [vm_compute; reflexivity|].
+  split; [vm_compute; reflexivity|]. split; [right; left; reflexivity|].
+  unfold vjustified. simpl h_kind. simpl h_loc.
+  intros [_ [s [[l0 [r0 [pre [tgt [El [R P]]]]]] _]]].
+  destruct l0 as [|a0 l0]; [|destruct l0; discriminate].
+  simpl in El. inversion El; subst r0. inversion R; subst.
+  destruct P as [[i [els [idx [H _]]]]|[i [kvs [pos [k [H [Hr [Hn [_ [_ Hs]]]]]]]]]]; [discriminate|].
+  inversion H; subst i kvs. destruct pos as [|[|pos]]; simpl in Hn.
+  - inversion Hn; subst. discriminate.
+  - inversion Hn; subst. specialize (Hs eq_refl). vm_compute in Hs. discriminate.
+  - destruct pos; discriminate.
+Qed.
+
+(* non-vacuity of the guards: {a: &x {k: a}, b: *x, c: {<<: *x}} under --anchorsonly *)
+Example C07_alias_guards_hold :
+  names_consistent (anc_occs C07_doc3) = true /\
+  exposed C07_lit0 C07_re0 C07_tm_a C07_mt3 C07_o_none C07_doc3 [] = true /\
+  vwanted C07_lit0 C07_re0 C07_tm_a C07_mt3 C07_o_none C07_doc3 [RKey (PStr "a"); RKey (PStr "k")].
+Proof.
+  split; [vm_compute; reflexivity|]. split; [vm_compute; reflexivity|].
+  left. split; [reflexivity|]. exists (C07_leaf "a"). split; [|split; [reflexivity|vm_compute; reflexivity]].
+  exists [RKey (PStr "a")], (RKey (PStr "k")), [C07_anch], C07_anch. split; [reflexivity|]. split.
+  - apply (vr_entry C07_mt3 C07_o_none [] C07_i0 _ 0 (C07_leaf "a") C07_anch [] [C07_anch] C07_anch).
+    + reflexivity.
+    + intros [H _]. vm_compute in H. discriminate.
+    + intros _. reflexivity.
+    + intros _. reflexivity.
+    + constructor.
+  - right. exists C07_ix, [(C07_leaf "k", C07_leaf "a")], 0, (C07_leaf "k").
+    split; [reflexivity|]. split; [reflexivity|]. split; [reflexivity|].
+    split; [intros [H _]; vm_compute in H; discriminate|]. split; intros _; reflexivity.
+Qed.
+
+(* ---- "prints exactly the search results": process_yaml_file's loop over the
+        expressions with its de-duplication by str(path), and print_results in
+        the paths-only mode (-F, no -P/-L/-n, one expression or -X)
+        (Model/PathsPrint.v): the printed lines are exactly the texts of the
+        results of the accepted expressions, each text once.  (The other
+        output modes are modelled and tied; the value text of -L is an
+        oracle.) ---- *)
+Theorem C07_print_exact :
+  forall lit re_search value_text (mt : mtable) (sp : sep) (o : opts) (d : node)
+         fl exprs file idx lines bad,
+    paths_only fl (List.length exprs) ->
+    process_doc lit re_search value_text mt sp o d fl exprs file idx = Ok (lines, bad) ->
+    (forall line, In line lines -> exists e h, from lit re_search mt sp o d exprs e h /\ hit_str h = Ok line) /\
+    (forall e h, from lit re_search mt sp o d exprs e h -> exists line, In line lines /\ hit_str h = Ok line) /\
+    NoDup lines.
+Proof. exact print_exact. Qed.
+Print Assumptions C07_print_exact.
+
+(* two expressions with a common result, a rejected expression, -F -X *)
+Example C07_print_example :
+  paths_only (mkpflags true true false false false) 3 /\
+  process_doc C07_lit0 C07_re0 (fun _ => Ok "") [] Dot C07_o_v C07_doc2
+              (mkpflags true true false false false) ["=a"; "x"; "^a"] "f.yaml" 0%Z
+  = Ok (["a"; "k[0]"], true).
+Proof. split; [repeat split; auto|vm_compute; reflexivity]. Qed.
 
 (* get_search_term through the parser model *)
 Example C07_search_term_example :
